@@ -13,9 +13,9 @@ open Solstat.Gen T View
 
 /-! ## every fallible site of the current source is accounted for -/
 
-/-- for every file and every kind of fallible operation (`unwrap`, `expect`, index, `panic!`, arithmetic), the
+/-- for every area of the crate (`src/analyzer`, `src/report`, `src`) and every kind of fallible operation (`unwrap`, `expect`, index, `panic!`, arithmetic), the
 regenerated inventory has at most as many sites as the reviewed classification accounts for: a new fallible site
-anywhere in the non-test code breaks this; a site that moved into a helper function of the same file, or that
+anywhere in the non-test code breaks this; a site that moved into a helper function or another file of the same area, or that
 disappeared, does not (`as` conversions and `str::parse` cannot abort and are listed separately) -/
 theorem panic_sites_accounted :
     Gen.panicSiteCounts.all (fun e => accountedCounts.any (fun a => a.1 = e.1 && a.2.1 = e.2.1 && e.2.2 ≤ a.2.2)) = true := by
